@@ -413,6 +413,88 @@ func run(r *Rng, tier string, n int) {
 			checkMsg(m, k <= 64 && lab == "a.", "pointer-nesting")
 		}
 	}
+	// compressed input, the corner of it: a name that consists of a pointer only, ending at a ROOT octet (what
+	// another encoder may send for a null MX, an SRV with target "."), or labels followed by a pointer to a
+	// root octet; followed by a further record, so that the offset after the name matters
+	{
+		// header: 1 question, 2 answers; question "q." at 12 (01 71 00), its root octet at offset 14
+		type shape struct {
+			typ  uint16
+			pre  []byte // RDATA before the name
+			post []byte // RDATA after the name
+		}
+		shapes := []shape{{dns.TypeNS, nil, nil}, {dns.TypeCNAME, nil, nil}, {dns.TypePTR, nil, nil}, {dns.TypeDNAME, nil, nil},
+			{dns.TypeMX, []byte{0, 0}, nil}, {dns.TypeKX, []byte{0, 1}, nil}, {dns.TypeAFSDB, []byte{0, 1}, nil}, {dns.TypeRT, []byte{0, 1}, nil},
+			{dns.TypeSRV, []byte{0, 0, 0, 0, 0, 0}, nil}, {dns.TypeSVCB, []byte{0, 0}, nil}, {dns.TypeHTTPS, []byte{0, 1}, nil},
+			{dns.TypeNSEC, nil, []byte{0, 1, 0x40}}, {dns.TypeSOA, nil, append([]byte{0}, make([]byte, 20)...)},
+			{dns.TypeRRSIG, []byte{0, 1, 8, 0, 0, 0, 0, 60, 0x6b, 0x49, 0xd2, 0, 0x65, 0x53, 0xf1, 0, 0, 7}, []byte{1, 2, 3}},
+			{dns.TypeNAPTR, []byte{0, 1, 0, 1, 1, 'u', 0, 0}, nil}, {dns.TypeHIP, []byte{0, 2, 0, 0}, nil}}
+		for _, sh := range shapes {
+			for _, nameForm := range [][]byte{{0xC0, 14}, {1, 'x', 0xC0, 14}} {
+				build := func(name []byte) []byte {
+					w := []byte{0, 1, 0x80, 0, 0, 1, 0, 2, 0, 0, 0, 0, 1, 'q', 0, 0, byte(sh.typ), 0, 1}
+					rd := append(append(append([]byte{}, sh.pre...), name...), sh.post...)
+					if sh.typ == dns.TypeHIP {
+						rd = append(append([]byte{}, sh.pre...), name...) // rendezvous servers run to the end
+					}
+					w = append(w, 0xC0, 12, byte(sh.typ>>8), byte(sh.typ), 0, 1, 0, 0, 0, 9, byte(len(rd)>>8), byte(len(rd)))
+					w = append(w, rd...)
+					w = append(w, 0xC0, 12, 0, 1, 0, 1, 0, 0, 0, 9, 0, 4, 192, 0, 2, 1) // a following A record
+					return w
+				}
+				plainName := []byte{0}
+				if len(nameForm) > 2 {
+					plainName = []byte{1, 'x', 0}
+				}
+				cw, uw := build(nameForm), build(plainName)
+				var a, b dns.Msg
+				if a.Unpack(uw) != nil {
+					st["root_pointer_shape_not_decodable"]++
+					continue
+				}
+				st["root_pointer_input_checked"]++
+				in := map[string]string{"wire": Hx(cw), "uncompressed": Hx(uw)}
+				tn := dns.TypeToString[sh.typ]
+				if err := b.Unpack(cw); err != nil {
+					Viol("C04/compressed-input-rejected/"+tn, "a name written as a pointer to a root octet is not accepted: "+err.Error(), in)
+					continue
+				}
+				for _, rr := range b.Answer {
+					rr.Header().Rdlength = 0
+				}
+				for _, rr := range a.Answer {
+					rr.Header().Rdlength = 0
+				}
+				ta, _ := MsgText(&a)
+				tb, _ := MsgText(&b)
+				if ta != tb {
+					Viol("C04/compressed-input-differs/"+tn, "a name written as a pointer to a root octet decodes to a different message", in)
+				}
+			}
+		}
+	}
+	// PackBuffer into caller buffers of EVERY length: the same octets as Pack (or the same refusal), compressed
+	for i := 0; i < 6; i++ {
+		m, _ := GenMsg(r, pool, []uint16{dns.TypeNS, dns.TypeCNAME, dns.TypeMX, dns.TypeA, dns.TypePTR}, 1, 1+r.Intn(3), r.Intn(2), 0, true, false)
+		for _, rr := range m.Answer {
+			setNames(rr, m.Question[0].Name)
+		}
+		want, err := m.Copy().Pack()
+		if err != nil {
+			continue
+		}
+		uc := m.Copy()
+		uc.Compress = false
+		for n := 0; n <= uc.Len()+6; n++ {
+			got, err := m.Copy().PackBuffer(make([]byte, n))
+			st["packbuffer_lengths_checked"]++
+			if err != nil || !bytes.Equal(got, want) {
+				t, _ := MsgText(m)
+				Viol("C04/packbuffer-depends-on-buffer", "PackBuffer into a caller buffer of "+Itoa(n)+" octets differs from Pack() ("+Itoa(len(want))+" octets compressed): err="+Btoa(err != nil), map[string]string{"msg": t})
+				break
+			}
+		}
+	}
 	// sequences of packDomainName calls sharing one map, also starting near offset 16384
 	nseq := 120
 	if tier == "thorough" {
